@@ -265,6 +265,10 @@ def diff_case(arg):
         "f0": (a4.f0, 0, 3, 1e-5), "f7": (a4.f7, 0, 1, 1e-6), "f21": (a4.f21, 0, 1, 1e-3), "f24": (a4.f24, 0, 3, 1e-3),
         "f63": ((lambda x: a4.f63(x, 0.987654321, 0.45)), 0, 1, 1e-10), "fdiv": (a4.fdiv, 0, 1, 1e-6),
         "f63b": ((lambda x: a4.f63(x, -0.5, 0.3)), 0, 1, 1e-8),
+        # inverse square root with the singular (non-finite) node at the abscissa 0 and a tight tolerance: the intervals next to
+        # 0 shrink by 40 binades; the "too narrow" test is RELATIVE to the abscissa, so [0, w] is never too narrow (as in Gonnet)
+        "isqrt0": ((lambda x: 1.0 / np.sqrt(x)), 0, 1, 1e-9),
+        "isqrt0b": ((lambda x: 0.5 + 3.0 / np.sqrt(x)), 0, 3.5, 1e-8),
     }
     if name in fixed:
         f, a, b, tol = fixed[name]
@@ -582,7 +586,8 @@ DIFF_COUNTED = set()
 DIFF_DROP_NOTE = ("algorithm_4 tests `points[1]-points[0] < points[0]*min_sep` without abs() (never true for negative abscissae) and, "
                   "for an interval of depth 3, on the stale `points` of the previous loop; IntegratorLearner._fill_stack tests the "
                   "selected interval's own points with abs(). After either side has dropped an interval the two process different "
-                  "intervals; such disagreements are counted (diverged_after_interval_drop), not failed.")
+                  "intervals; such disagreements are counted (diverged_after_interval_drop), not failed - unless the learner ALONE dropped an interval "
+                  "on a domain of non-negative abscissae, where the two rules coincide (both relative to the abscissa).")
 
 
 def run(ctx):
@@ -647,7 +652,7 @@ def run(ctx):
                    "replay": {"part": "closed", "family": r["family"], "seed": r["seed"], "cap": r["cap"]}}
             (counted if r["family"] in CLOSED_COUNTED else failures).append(rec)
     # differential
-    ditems = [(n, 0, 0) for n in ["f0", "f7", "f21", "f24", "f63", "f63b", "fdiv"]]
+    ditems = [(n, 0, 0) for n in ["f0", "f7", "f21", "f24", "f63", "f63b", "fdiv", "isqrt0", "isqrt0b"]]
     ditems += [(n, 0, k) for n in ["f0", "f7", "f21", "f24", "f63"] for k in (3, 10, 40)]
     for fam in FAMILIES:
         for _ in range(ctx.n(6, 60)):
@@ -672,7 +677,9 @@ def run(ctx):
             s["mismatch"] += 1
             rec = {"clause": "differential_algorithm_4", "signature": f"C08.diff.{r['name']}", "detail": r["fail"],
                    "replay": {"part": "diff", "name": r["name"], "seed": r["seed"], "n_loops": r["n_loops"]}}
-            if r.get("dropped") and "single-point asks" not in r["fail"]:
+            if r.get("dropped") and "single-point asks" not in r["fail"] and (r.get("ref_dropped") or r["a"] < 0):
+                # (a drop by the learner ALONE on a domain of non-negative abscissae is not excused: there the two "too narrow"
+                # rules coincide - both are relative to the abscissa, so an interval [0, w] is never too narrow)
                 # The two implementations drop intervals by different rules (see DIFF_DROP_NOTE); after a drop they no longer
                 # process the same intervals, so "same number of evaluations" stops being a like-for-like comparison.
                 s["mismatch"] -= 1
